@@ -298,6 +298,38 @@ def ShardState (sp : Bool) (cell_slice : Frag) : Rd.R := do
     pure ((Rd.obj "ShardState" [("type_", (Rd.str "_")), ("shard_state_unsplit", t5)]), cell_slice)
 -- END ShardState
 
+-- BEGIN AccountBlock
+def AccountBlock (sp : Bool) (cell_slice : Frag) : Rd.R := do
+  let (t1, cell_slice) ← Rd.loadUint 4 cell_slice
+  if (!Rd.veq t1 (Val.int 5)) then none else
+  let (t2, cell_slice) ← Rd.loadBytes 32 cell_slice
+  let (t3, cell_slice) ← Rd.loadHashmapAug 64 (Rd.viaRef (SrcTx.Transaction 3)) (SrcTx.CurrencyCollection false) sp cell_slice
+  let (t4, cell_slice) ← Rd.viaRef Src.HashUpdate cell_slice
+  pure ((Rd.obj "AccountBlock" [("account_addr", (Rd.hex t2)), ("transactions", t3), ("state_update", t4)]), cell_slice)
+-- END AccountBlock
+
+-- BEGIN BlockExtra
+def BlockExtra (sp : Bool) (cell_slice : Frag) : Rd.R := do
+  if sp then do
+    pure (Val.unit, cell_slice)
+  else do
+    let (t1, cell_slice) ← Rd.loadBytes 4 cell_slice
+    if (!Rd.veq t1 (Rd.bytesLit [74, 51, 246, 253])) then none else
+    let (c2, cell_slice) ← Rd.loadRef cell_slice
+    let r3 := Rd.beginParse c2
+    let (t4, _) ← Rd.loadHashmapAugE 256 ((SrcTx.InMsg 3) false) (SrcTx.ImportFees false) (Rd.special c2) r3
+    let (c5, cell_slice) ← Rd.loadRef cell_slice
+    let r6 := Rd.beginParse c5
+    let (t7, _) ← Rd.loadHashmapAugE 256 ((SrcTx.OutMsg 3) false) (SrcTx.CurrencyCollection false) (Rd.special c5) r6
+    let (c8, cell_slice) ← Rd.loadRef cell_slice
+    let r9 := Rd.beginParse c8
+    let (t10, _) ← Rd.loadHashmapAugE 256 (AccountBlock false) (SrcTx.CurrencyCollection false) (Rd.special c8) r9
+    let (t11, cell_slice) ← Rd.loadBytes 32 cell_slice
+    let (t12, cell_slice) ← Rd.loadBytes 32 cell_slice
+    let (t13, cell_slice) ← Rd.optional cell_slice (Rd.viaRef McBlockExtra)
+    pure ((Rd.obj "BlockExtra" [("in_msg_descr", t4), ("out_msg_descr", t7), ("account_blocks", t10), ("rand_seed", t11), ("created_by", t12), ("custom", t13)]), cell_slice)
+-- END BlockExtra
+
 /-- the readers by class name (driver op `tlbsrcblk`) -/
 def readers : List (String × (Bool → Frag → Rd.R)) := [
   ("DepthBalanceInfo", DepthBalanceInfo),
@@ -314,6 +346,8 @@ def readers : List (String × (Bool → Frag → Rd.R)) := [
   ("McStateExtra", McStateExtra),
   ("ShardStateUnsplit", ShardStateUnsplit),
   ("McBlockExtra", McBlockExtra),
-  ("ShardState", ShardState)]
+  ("ShardState", ShardState),
+  ("AccountBlock", AccountBlock),
+  ("BlockExtra", BlockExtra)]
 
 end TonVerif.Tlb.SrcBlk
